@@ -209,6 +209,7 @@ func runC19(c *Ctx) {
 	ruleStringIndexGuard(c, p, "C19.index-guard")
 	ruleDictIndependentOfRows(c, p, "C19.dict-rows")
 	ruleEnumNameNotSentinel(c, p, "C19.enum-sentinel")
+	ruleWrapperHelperKeepsReceiver(c, p, "C19.helper-receiver")
 	ruleFreshTargets(c, p, "C19.fresh")
 	ruleMapInfer(c, p, "C19.mapinfer")
 	ruleForwardUnconditional(c, p, "C19.forward-always")
